@@ -20,17 +20,26 @@ def stage_consts(ctx):
     ctx.note_case(('consts', tuple(vals)), nontrivial=False)
 
 
+def is_ssh_error(e):
+    import asyncssh
+    return isinstance(e, (asyncssh.Error, asyncssh.ChannelOpenError, ConnectionError))
+
+
 class Collector:
     """accumulates Coq cases + their replay metadata"""
 
     def __init__(self):
         self.cases, self.meta = [], []
+        self.key_cases = self.key_exchanges = 0
 
     def add(self, tap, ops, cfg, final, rp, with_keys):
         nex = sum(1 for o in ops if o['act'][0] == 'KexDone')
         wk = with_keys and nex <= KEY_CASE_MAX_EXCHANGES and all(len(o['act'][1]) <= 80 for o in ops if o['act'][0] == 'KexDone')
         self.cases.append(S.coq_case(tap, ops, cfg, final, wk))
         self.meta.append(rp)
+        if wk and nex:
+            self.key_cases += 1
+            self.key_exchanges += sum(1 for o in ops if o['act'][0] == 'KexDone' and o['keys'] is not None)
 
 
 def classify_quiet(tap, msg_tag):
@@ -48,6 +57,14 @@ def judge_side(ctx, tap, ops, rp, label, stats, skip_oracles=False):
     kb, nk = S.oracle_keys(tap, ops)
     stats['exchanges'] += info['newkeys']
     stats['keyed'] += nk
+    rk = [o for o in ops if o['act'][0] == 'RecvKexInit']
+    crossings = sum(1 for o in rk[1:] if not o['writes'])            # own KEXINIT already out when the peer's arrived
+    answered = [bool(o['writes']) for o in rk[1:]]
+    twice = any(a and b for a, b in zip(answered, answered[1:]))     # answered two peer-started exchanges in a row
+    stats['crossings'] = stats.get('crossings', 0) + crossings
+    stats['answered_twice_in_a_row'] = stats.get('answered_twice_in_a_row', 0) + (1 if twice else 0)
+    stats['time_triggered'] = stats.get('time_triggered', 0) + sum(
+        1 for a, b in zip(ops, ops[1:]) if a['act'][0] == 'Tick' and b['act'][0] == 'Send' and any(w[0] == 20 for w in b['writes']))
     ctx.count('exchanges_per_endpoint.%d' % min(info['newkeys'], 9))
     if skip_oracles:
         return info
@@ -88,32 +105,25 @@ def stage_traces(ctx, race=False):
     """race=False: clocks that stand still inside every synchronous call (ticks in between);
     race=True: writes during which the two clock readings of send_packet differ"""
     if race:
-        n = 40 if ctx.tier == 'thorough' else 8
+        n = 100 if ctx.tier == 'thorough' else 10
     else:
-        n = 420 if ctx.tier == 'thorough' else 64
+        n = 1500 if ctx.tier == 'thorough' else 96
     col = Collector()
-    stats = {'exchanges': 0, 'keyed': 0, 'hostile': 0, 'race_steps': 0, 'both': 0, 'sessions': 0}
+    stats = {'exchanges': 0, 'keyed': 0, 'hostile': 0, 'race_steps': 0, 'sessions': 0}
     for i in range(n):
         sc = c11_scen.gen_script(ctx.rng, ctx.tier == 'thorough', race=race)
         rp = {'kind': 'trace', 'script': sc}
-        try:
-            r = sshutil.run(c11_scen.run_script(sc), timeout=120)
-        except c11_scen.Stall as e:
-            stats['stalls'] = stats.get('stalls', 0) + 1
-            ctx.failing_input(f'scripted session stalled during {e} (rekey_bytes c/s {sc["rb_c"]}/{sc["rb_s"]})',
-                              dict(rp, **{'class': 'stalled', 'clause': 'order'}))
-            if stats['stalls'] >= 3:
-                break
-            continue
-        except Exception as e:
-            ctx.broke('harness:trace', f'{e!r} on {json.dumps(sc)[:600]}')
-            if sum(1 for b in ctx.broken if b['name'] == 'harness:trace') >= 3:
-                break
+        r = run_guarded(ctx, c11_scen.run_script, sc, rp, stats, 'scripted session', 12)
+        if r == 'stop':
+            break
+        if r is None:
             continue
         judge_script(ctx, r, rp, col, stats, i)
         if stats.get('bad_sessions', 0) >= 12:
             break           # a broken tree: the picture is clear, keep the run cheap
     run_coq(ctx, 'race' if race else 'trace', col)
+    stats['traces_with_keys_compared_in_coq'] = col.key_cases
+    stats['exchanges_with_keys_compared_in_coq'] = col.key_exchanges
     ctx.cov['oracle']['race' if race else 'trace'] = stats
     if race:
         if stats['race_steps'] < n:
@@ -121,6 +131,11 @@ def stage_traces(ctx, race=False):
         return
     if stats['exchanges'] < 2 * n and not stats.get('stalls') and not stats.get('bad_sessions'):
         ctx.broke('vacuity:rekeys', f'only {stats["exchanges"]} completed exchanges in {n} sessions')
+    for key, need in (('crossings', 5), ('answered_twice_in_a_row', 5), ('time_triggered', 5)):
+        if stats.get(key, 0) < need and not stats.get('stalls') and not stats.get('bad_sessions'):
+            ctx.broke('vacuity:' + key, f'only {stats.get(key, 0)} occurrences in {n} scripted sessions')
+    if stats['keyed'] and col.key_exchanges < 10 and not stats.get('stalls') and not stats.get('bad_sessions'):
+        ctx.broke('vacuity:keys-in-coq', f'installed keys compared inside Coq for only {col.key_exchanges} exchanges')
     if stats['keyed'] == 0:
         ctx.cov['extra_assumptions'] = ['asyncssh.connection.get_encryption is gone: installed keys were not observed '
                                         'directly in asyncssh<->asyncssh sessions (MiniSSH sessions still check them)']
@@ -168,59 +183,100 @@ def judge_script(ctx, r, rp, col, stats, i):
     ctx.note_case(('trace', json.dumps(sc, sort_keys=True)), nontrivial=nontriv)
 
 
+def run_guarded(ctx, coro_fn, sc, rp, stats, label, max_bad):
+    """run one session; a stall or an SSH error between honest peers is a failing input, anything else a
+    harness problem.  Returns the result dict, None to skip, or 'stop' when the stage should be cut short."""
+    try:
+        return sshutil.run(coro_fn(sc), timeout=180)
+    except c11_scen.Stall as e:
+        stats['stalls'] = stats.get('stalls', 0) + 1
+        ctx.failing_input(f'{label} stalled during {e} (rekey_bytes c/s {sc.get("rb_c")}/{sc.get("rb_s")})',
+                          dict(rp, **{'class': 'stalled', 'clause': 'order'}))
+        return 'stop' if stats['stalls'] >= 3 else None
+    except Exception as e:
+        if is_ssh_error(e):         # the honest session itself broke: that is the property failing, not the harness
+            stats['bad_sessions'] = stats.get('bad_sessions', 0) + 1
+            ctx.failing_input(f'{label} between honest peers broke with {e!r}',
+                              dict(rp, **{'class': 'broken-session', 'clause': 'order'}))
+            return 'stop' if stats['bad_sessions'] >= max_bad else None
+        ctx.broke('harness:' + rp['kind'], f'{e!r} on {json.dumps(sc)[:600]}')
+        return 'stop' if sum(1 for x in ctx.broken if x['name'] == 'harness:' + rp['kind']) >= 3 else None
+
+
+def judge_busy(ctx, r, rp, col, stats):
+    sc = r['sc']
+    stats['sessions'] += 1
+    stats['bytes'] += sum(len(v) for v in r['streams'].sent.values())
+    if r['problems'] or r['diff'] or any(v != 'none' for v in r['lost'].values()):
+        stats['bad_sessions'] = stats.get('bad_sessions', 0) + 1
+    for kind, msg in r['problems']:
+        ctx.failing_input(f'busy session: {msg}', dict(rp, **{'class': kind, 'clause': 'order'}))
+    for key, kind, ns, ng in r['diff']:
+        ctx.failing_input(f'busy session: application stream {key} {kind}: wrote {ns} bytes, peer application got {ng}',
+                          dict(rp, **{'class': kind, 'clause': 'order'}))
+    if any(v != 'none' for v in r['lost'].values()):
+        ctx.failing_input(f'busy session between honest peers broke: {r["lost"]}',
+                          dict(rp, **{'class': 'broken-session', 'clause': 'order'}))
+    nontriv = False
+    for side in 'cs':
+        sd = r['sides'][side]
+        info = judge_side(ctx, sd['tap'], sd['ops'], rp, 'client' if side == 'c' else 'server', stats)
+        nontriv = nontriv or info['newkeys'] >= 2
+        col.add(sd['tap'], sd['ops'], sd['cfg'], sd['final'], dict(rp, side=side), with_keys=False)
+    ctx.note_case(('busy', json.dumps(sc, sort_keys=True)), nontrivial=nontriv)
+
+
 def stage_busy(ctx):
-    n = 120 if ctx.tier == 'thorough' else 16
+    n = 400 if ctx.tier == 'thorough' else 24
     col = Collector()
     stats = {'exchanges': 0, 'keyed': 0, 'sessions': 0, 'bytes': 0}
     for k in range(n):
         sc = c11_scen.gen_busy(ctx.rng, k)
         rp = {'kind': 'busy', 'script': sc}
-        try:
-            r = sshutil.run(c11_scen.run_busy(sc), timeout=180)
-        except c11_scen.Stall as e:
-            stats['stalls'] = stats.get('stalls', 0) + 1
-            ctx.failing_input(f'busy session stalled during {e} (rekey_bytes c/s {sc["rb_c"]}/{sc["rb_s"]})',
-                              dict(rp, **{'class': 'stalled', 'clause': 'order'}))
-            if stats['stalls'] >= 3:
-                break
+        r = run_guarded(ctx, c11_scen.run_busy, sc, rp, stats, 'busy session', 4)
+        if r == 'stop':
+            break
+        if r is None:
             continue
-        except Exception as e:
-            ctx.broke('harness:busy', f'{e!r} on {json.dumps(sc)[:400]}')
-            if sum(1 for b in ctx.broken if b['name'] == 'harness:busy') >= 3:
-                break
-            continue
-        stats['sessions'] += 1
-        if r['problems'] or r['diff']:
-            stats['bad_sessions'] = stats.get('bad_sessions', 0) + 1
-            if stats['bad_sessions'] >= 4:
-                ctx.log('busy stage cut short: 4 sessions failed')
-                for kind, msg in r['problems']:
-                    ctx.failing_input(f'busy session: {msg}', dict(rp, **{'class': kind, 'clause': 'order'}))
-                break
-        stats['bytes'] += sum(len(v) for v in r['streams'].sent.values())
-        for kind, msg in r['problems']:
-            ctx.failing_input(f'busy session: {msg}', dict(rp, **{'class': kind, 'clause': 'order'}))
-        for key, kind, ns, ng in r['diff']:
-            ctx.failing_input(f'busy session: application stream {key} {kind}: wrote {ns} bytes, peer application got {ng}',
-                              dict(rp, **{'class': kind, 'clause': 'order'}))
-        if any(v != 'none' for v in r['lost'].values()):
-            ctx.failing_input(f'busy session between honest peers broke: {r["lost"]}',
-                              dict(rp, **{'class': 'broken-session', 'clause': 'order'}))
-        nontriv = False
-        for side in 'cs':
-            sd = r['sides'][side]
-            info = judge_side(ctx, sd['tap'], sd['ops'], rp, 'client' if side == 'c' else 'server', stats)
-            nontriv = nontriv or info['newkeys'] >= 2
-            col.add(sd['tap'], sd['ops'], sd['cfg'], sd['final'], dict(rp, side=side), with_keys=False)
-        ctx.note_case(('busy', json.dumps(sc, sort_keys=True)), nontrivial=nontriv)
+        judge_busy(ctx, r, rp, col, stats)
+        if stats.get('bad_sessions', 0) >= 4:
+            ctx.log('busy stage cut short: 4 sessions failed')
+            break
     run_coq(ctx, 'busy', col)
     ctx.cov['oracle']['busy'] = stats
     if stats['exchanges'] < 3 * n and not stats.get('stalls') and not stats.get('bad_sessions'):
         ctx.broke('vacuity:busy-rekeys', f'only {stats["exchanges"]} completed exchanges in {n} busy sessions')
 
 
+def judge_mini(ctx, r, rp, col, stats, k):
+    sc = r['sc']
+    stats['sessions'] += 1
+    stats['old_key_checks'] += r['checked_old']
+    stats['alg_changes'] += len(set(r['negotiated'])) - 1
+    for kind, msg in r['problems']:
+        ctx.failing_input(f'asyncssh vs independent peer: {msg}', dict(rp, **{'class': kind, 'clause': kind}))
+    want = sum(1 for x in sc['plan'] if x in ('mini', 'async'))
+    if r['exchanges'] != want:
+        ctx.failing_input(f'asyncssh vs independent peer: {r["exchanges"]} of {want} planned re-exchanges completed',
+                          dict(rp, **{'class': 'stalled', 'clause': 'order'}))
+    if 'tail' in r:
+        stats['tails'] += 1
+        ctx.count('mini.tail.%s.%s' % (r['tail']['kind'], 'rejected' if r['tail']['rejected'] else 'ACCEPTED'))
+        if not r['tail']['rejected']:
+            what = {'newkeys': 'a bare NEWKEYS outside any exchange',
+                    'kexinit2': 'a second KEXINIT inside a running exchange'}.get(
+                        r['tail']['kind'], 'a packet protected with the keys of the previous exchange')
+            cls = {'newkeys': 'unsolicited_newkeys', 'kexinit2': 'second_kexinit'}.get(r['tail']['kind'], 'stale_keys')
+            ctx.failing_input(f'asyncssh accepted {what} from the independent peer (connection_lost: {r["tail"]["lost"]})',
+                              dict(rp, **{'class': cls, 'clause': 'fresh'}))
+    info = judge_side(ctx, r['tap'], r['ops'], rp, 'asyncssh endpoint', stats)
+    col.add(r['tap'], r['ops'], r['cfg'], r['final'], rp, with_keys=(k % 2 == 0))
+    ctx.note_case(('mini', json.dumps(sc, sort_keys=True)), nontrivial=info['newkeys'] >= 2)
+    ctx.count('mini.role.' + sc['role'])
+
+
 def stage_mini(ctx):
-    n = 60 if ctx.tier == 'thorough' else 12
+    n = 150 if ctx.tier == 'thorough' else 15
     col = Collector()
     stats = {'exchanges': 0, 'keyed': 0, 'sessions': 0, 'old_key_checks': 0, 'alg_changes': 0, 'tails': 0}
     for k in range(n):
@@ -236,28 +292,7 @@ def stage_mini(ctx):
             if stats['failed'] >= 3:
                 break
             continue
-        stats['sessions'] += 1
-        stats['old_key_checks'] += r['checked_old']
-        stats['alg_changes'] += len(set(r['negotiated'])) - 1
-        for kind, msg in r['problems']:
-            ctx.failing_input(f'asyncssh vs independent peer: {msg}', dict(rp, **{'class': kind, 'clause': kind}))
-        want = sum(1 for s in sc['plan'] if s in ('mini', 'async'))
-        if r['exchanges'] != want:
-            ctx.failing_input(f'asyncssh vs independent peer: {r["exchanges"]} of {want} planned re-exchanges completed',
-                              dict(rp, **{'class': 'stalled', 'clause': 'order'}))
-        if 'tail' in r:
-            stats['tails'] += 1
-            ctx.count('mini.tail.%s.%s' % (r['tail']['kind'], 'rejected' if r['tail']['rejected'] else 'ACCEPTED'))
-            if not r['tail']['rejected']:
-                what = ('a bare NEWKEYS outside any exchange' if r['tail']['kind'] == 'newkeys'
-                        else 'a packet protected with the keys of the previous exchange')
-                ctx.failing_input(f'asyncssh accepted {what} from the independent peer (connection_lost: {r["tail"]["lost"]})',
-                                  dict(rp, **{'class': 'unsolicited_newkeys' if r['tail']['kind'] == 'newkeys' else 'stale_keys',
-                                              'clause': 'fresh'}))
-        info = judge_side(ctx, r['tap'], r['ops'], rp, 'asyncssh endpoint', stats)
-        col.add(r['tap'], r['ops'], r['cfg'], r['final'], rp, with_keys=(k % 2 == 0))
-        ctx.note_case(('mini', json.dumps(sc, sort_keys=True)), nontrivial=info['newkeys'] >= 2)
-        ctx.count('mini.role.' + sc['role'])
+        judge_mini(ctx, r, rp, col, stats, k)
     run_coq(ctx, 'mini', col)
     ctx.cov['oracle']['mini'] = stats
     if stats['sessions'] and stats['old_key_checks'] < stats['sessions'] and not stats.get('failed'):
@@ -307,11 +342,11 @@ def replay(rp):
     fails = []
 
     class Rctx:
-        rng = None
         violations = 0
 
         def __init__(self):
-            self.cov = {'oracle': {}}
+            self.cov = {'oracle': {}, 'samples': []}
+            self.broken = []
 
         def failing_input(self, what, r):
             fails.append((r.get('class'), what))
@@ -325,39 +360,36 @@ def replay(rp):
         def sample(self, *a, **k):
             pass
 
+        def log(self, *a):
+            print(*a)
+
         def broke(self, name, detail):
-            print('broken', name, detail[:300])
+            self.broken.append({'name': name})
+            print('broken', name, str(detail)[:300])
     ctx = Rctx()
-    stats = {'exchanges': 0, 'keyed': 0, 'hostile': 0, 'race_steps': 0, 'both': 0, 'sessions': 0, 'old_key_checks': 0,
+    stats = {'exchanges': 0, 'keyed': 0, 'hostile': 0, 'race_steps': 0, 'sessions': 0, 'old_key_checks': 0,
              'alg_changes': 0, 'tails': 0, 'bytes': 0}
     col = Collector()
+    sc = rp.get('script')
+    base = {'kind': kind, 'script': sc}
     if kind == 'trace':
-        r = sshutil.run(c11_scen.run_script(rp['script']), timeout=120)
-        judge_script(ctx, r, {'kind': 'trace', 'script': rp['script']}, col, stats, 1)
+        r = run_guarded(ctx, c11_scen.run_script, sc, base, stats, 'scripted session', 1)
+        if isinstance(r, dict):
+            judge_script(ctx, r, base, col, stats, 1)
     elif kind == 'busy':
-        r = sshutil.run(c11_scen.run_busy(rp['script']), timeout=180)
-        for k2, msg in r['problems']:
-            fails.append((k2, msg))
-        for key, k2, ns, ng in r['diff']:
-            fails.append((k2, f'{key} wrote {ns} got {ng}'))
-        for side in 'cs':
-            sd = r['sides'][side]
-            judge_side(ctx, sd['tap'], sd['ops'], {'kind': 'busy'}, side, stats)
+        r = run_guarded(ctx, c11_scen.run_busy, sc, base, stats, 'busy session', 1)
+        if isinstance(r, dict):
+            judge_busy(ctx, r, base, col, stats)
     elif kind == 'mini':
         try:
-            r = sshutil.run(c11_mini.session(rp['script']), timeout=120)
+            r = sshutil.run(c11_mini.session(sc), timeout=120)
+            judge_mini(ctx, r, base, col, stats, 1)
         except Exception as e:
-            print('session failed', repr(e))
-            return 1
-        for k2, msg in r['problems']:
-            fails.append((k2, msg))
-        if 'tail' in r and not r['tail']['rejected']:
-            fails.append(('tail', repr(r['tail'])))
-        judge_side(ctx, r['tap'], r['ops'], {'kind': 'mini'}, 'asyncssh', stats)
+            fails.append(('mini-failed', repr(e)))
     else:
         print('nothing to replay for', kind)
         return 2
     for f in fails:
         print(f)
     want = rp.get('class')
-    return 1 if any(want is None or c == want for c, _ in fails) else 0
+    return 1 if any(want is None or cl == want for cl, _ in fails) else 0
